@@ -229,17 +229,23 @@ def calling_fails(ctx, case):
                 case['fn'], case['fn'], ipts.tolist(), n, vi.tolist(), vf.tolist())
     # LARGE integer points given in an integer type (an intermediate integer power wraps around in int64 long before the float
     # value overflows): the same values as at the float points, relative
-    big = np.array([k for k in (999, 65535, 99999) if _in_dom(dom, k)])
-    if big.size and n >= 1 and case['fn'] not in ('reciprocal',):
-        try:
-            with np.errstate(all='ignore'):
-                vfb = np.array(_call(case, big.astype(float), n), dtype=float)
-                vib = np.array(_call(case, big.astype(np.int64), n), dtype=float)
-        except Exception:
-            vfb = vib = None
-        if vfb is not None and np.all(np.isfinite(vfb)) and (vib.shape != vfb.shape or not np.allclose(vib, vfb, rtol=1e-9, atol=0, equal_nan=True)):
-            return 'calling-bigint-%s: nthderiv.%s at the integer points %s given as an int64 array differs from the float call (n=%d): %s vs %s' % (
-                case['fn'], case['fn'], big.tolist(), n, vib.tolist(), vfb.tolist())
+    for pts_, dt_, orders in (((999, 65535, 99999), np.int64, (n,)), ((4000000000,), np.int64, (n,)), ((50000,), np.int32, (n,)), ((10, 7), np.int64, (n, 12, 20)),
+                              ((10, 7), np.int32, (9, 11))):
+        big = np.array([k for k in pts_ if _in_dom(dom, k)])
+        for n_ in orders:
+            if not (big.size and n_ >= 1 and case['fn'] not in ('reciprocal',)):
+                continue
+            try:
+                with np.errstate(all='ignore'):
+                    vfb = np.array(_call(case, big.astype(float), n_))
+                    vib = np.array(_call(case, big.astype(dt_), n_))
+            except Exception:
+                continue
+            if np.iscomplexobj(vfb) or not np.all(np.isfinite(vfb)) or not np.all(np.abs(vfb) > 1e-300):
+                continue
+            if np.iscomplexobj(vib) or vib.shape != vfb.shape or not np.allclose(np.asarray(vib, dtype=float), vfb, rtol=1e-9, atol=0, equal_nan=True):
+                return 'calling-bigint-%s: nthderiv.%s at the integer points %s given as an %s array differs from the float call (n=%d): %s vs %s' % (
+                    case['fn'], case['fn'], big.tolist(), np.dtype(dt_).name, n_, vib.tolist(), vfb.tolist())
     # the points given as a Python list / nested list (NumPy and SciPy accept array_like points): the same values as for the array
     for pts, lab in ((xs.tolist(), 'list'), ([xs.tolist()], 'nested list'), (tuple(xs.tolist()), 'tuple')):
         try:
